@@ -70,14 +70,15 @@ Fixpoint h_ticks (l : hlcd) (nows : list Z) : list wv :=
       end
   end.
 
-(* device: start every animation in order, then tick all of them once per pass *)
+(* device: start every animation in order (unsigned long is 64 bits wide under the mock's compiler),
+   then tick all of them once per pass *)
 Fixpoint d_starts (cols : Z) (as_ : list (Z * Z * list Z * Z * bool)) : option (list (style * dstate) * list dev) :=
   match as_ with
   | [] => Some ([], [])
   | (s, row, text, speed, loop) :: rest =>
       match un_style s, d_starts cols rest with
       | Some sty, Some (sts, evs) =>
-          let '(st, ev) := dstart sty cols row text speed loop in Some ((sty, st) :: sts, ev ++ evs)
+          let '(st, ev) := dstart_emit 64 sty cols row text speed loop in Some ((sty, st) :: sts, ev ++ evs)
       | _, _ => None
       end
   end.
